@@ -231,7 +231,7 @@ def run_tlc(module, cfg, workers=8, timeout=600, env_extra=None, tags=("CASE",),
     t0 = time.time()
     meta = os.path.join(workdir("tlc"), "%s_%s_%d" % (module, os.path.basename(cfg), int(t0 * 1000) % 10 ** 9))
     os.makedirs(meta, exist_ok=True)
-    cmd = ["java", "-XX:+UseParallelGC"]
+    cmd = ["java", "-XX:+UseParallelGC", "-Djava.io.tmpdir=" + meta]     # TLC's scratch dirs go with the metadir
     if xmx:
         cmd.append("-Xmx" + xmx)
     if java_opts:
